@@ -27,6 +27,35 @@ theorem borsh_de_table_ok :
     (borshShape borshDeRows .byt).isSome = true ∧ (borshShape borshDeRows .str).isSome = true := by
   decide
 
+/-- The shape part of `borsh_de_table_ok`, which the reader lemmas are stated with. -/
+theorem borsh_shape_ok : borshDeRows.all (borshShapeRowOk capLimit) = true :=
+  all_shape_of_all_ok borsh_de_table_ok.1
+
+/-- Every use of the `reader`/`writer` parameter in the four borsh impls is exact — handed on to
+another borsh impl (`u32`/`u8::deserialize_reader`, `[u8]::serialize`, which use
+`read_exact`/`write_all`) or a `read_exact`/`write_all` call — never a raw `read`/`write` whose
+short count could be mistaken for the end of the data or dropped; and no body contains an
+`unsafe` block.  (So a reader delivering the stream in pieces, or a writer accepting it in
+pieces, sees exactly what `Vec<u8>`/`String` see.) -/
+theorem borsh_io_exact :
+    (∀ r ∈ borshDeRows, r.io.all IoCall.exact = true ∧ r.usesUnsafe = false ∧ r.shape ≠ .other) ∧
+    (∀ r ∈ borshSerRows, r.io.all IoCall.exact = true ∧ r.usesUnsafe = false ∧ r.shape ≠ .other) := by
+  decide
+
+/-- No `impl Deserialize` overrides `deserialize_in_place` and there is no visitor outside the
+four modelled ones: deserialising in place is serde's default `*place = T::deserialize(d)?`, so
+it leaves exactly what a fresh `deserialize` returns (never a stale tail of the old value). -/
+theorem in_place_default :
+    (∀ r ∈ deRows, r.overridesInPlace = false) ∧ auxVisitors = [] := by decide
+
+/-- Every `visit_*` of a visitor that produces a `HipStr` receives a Rust string type, or
+validates (`from_utf8`) before constructing, or is an unconditional error; none collects a
+sequence of bytes. -/
+theorem str_visitors_validate :
+    ∀ v ∈ visitors, v.kind = .str → ∀ r ∈ v.methods,
+      (r.method.isStr = true ∨ r.body.validates = true ∨ r.body = .error) ∧ r.method ≠ .seq := by
+  decide
+
 /-- Both `BorshSerialize` impls write the slice `[u8]` encoding. -/
 theorem borsh_ser_table_ok :
     borshSerRows.all borshSerRowOk = true ∧ borshSerRows.map (·.kind) = [.byt, .str] := by decide
@@ -71,15 +100,15 @@ theorem borsh_roundtrip (b r : List UInt8) (h : b.length < 2 ^ 32) :
     (de (ser b ++ r)).result = .ok (b, r) := by
   obtain ⟨sh, hsh⟩ := byt_shape
   unfold de
-  rw [borshDe_byt _ borsh_de_table_ok.1 hsh]
-  exact deShape_roundtrip (bytShape_ok borsh_de_table_ok.1 hsh) b r h
+  rw [borshDe_byt _ borsh_shape_ok hsh]
+  exact deShape_roundtrip (bytShape_ok borsh_shape_ok hsh) b r h
 
 /-- Same for `HipStr` (whose content is well-formed UTF-8). -/
 theorem borsh_str_roundtrip (valid : List UInt8 → Bool) (s r : List UInt8) (h : s.length < 2 ^ 32)
     (hv : valid s = true) : (deStr valid (ser s ++ r)).result = .ok (s, r) := by
   obtain ⟨sh, hsh⟩ := byt_shape
-  exact borshDe_str_of_ok valid borsh_de_table_ok.1 hsh borsh_de_table_ok.2.2 _ _ _ hv
-    (deShape_roundtrip (bytShape_ok borsh_de_table_ok.1 hsh) s r h)
+  exact borshDe_str_of_ok valid borsh_shape_ok hsh borsh_de_table_ok.2.2 _ _ _ hv
+    (deShape_roundtrip (bytShape_ok borsh_shape_ok hsh) s r h)
 
 /-- `HipByt`/`HipStr` write exactly borsh's `Vec<u8>`/`[u8]`/`str` encoding (u32 LE length then
 the bytes), so each side reads what the other writes. -/
@@ -104,7 +133,7 @@ theorem borsh_total (input : List UInt8) :
   cases h : (de input).result with
   | ok x => exact .inl ⟨x, rfl⟩
   | error e =>
-    have := borshDe_err (fun _ => true) borsh_de_table_ok.1 .byt borsh_de_table_ok.2.1
+    have := borshDe_err (fun _ => true) borsh_shape_ok .byt borsh_de_table_ok.2.1
       borsh_de_table_ok.2.1 input e h
     rcases this with rfl | ⟨hk, _⟩
     · exact .inr rfl
@@ -117,7 +146,7 @@ theorem borsh_str_total (valid : List UInt8 → Bool) (input : List UInt8) :
   cases h : (deStr valid input).result with
   | ok x => exact .inl ⟨x, rfl⟩
   | error e =>
-    have := borshDe_err valid borsh_de_table_ok.1 .str borsh_de_table_ok.2.1
+    have := borshDe_err valid borsh_shape_ok .str borsh_de_table_ok.2.1
       borsh_de_table_ok.2.2 input e h
     rcases this with rfl | ⟨_, rfl⟩
     · exact .inr (.inl rfl)
@@ -127,7 +156,7 @@ theorem borsh_str_total (valid : List UInt8 → Bool) (input : List UInt8) :
 theorem borsh_str_valid (valid : List UInt8 → Bool) (input s rest : List UInt8)
     (h : (deStr valid input).result = .ok (s, rest)) : valid s = true := by
   obtain ⟨sh, hsh⟩ := byt_shape
-  exact (borshDe_str_ok valid borsh_de_table_ok.1 hsh borsh_de_table_ok.2.2 input s rest h).1
+  exact (borshDe_str_ok valid borsh_shape_ok hsh borsh_de_table_ok.2.2 input s rest h).1
 
 /-- The reader accepts nothing but encodings: an accepted input is the encoding of the value
 returned followed by the unread rest (so the value is never longer than the input). -/
@@ -135,19 +164,21 @@ theorem borsh_de_inverse (input c rest : List UInt8) (h : (de input).result = .o
     input = ser c ++ rest := by
   obtain ⟨sh, hsh⟩ := byt_shape
   unfold de at h
-  rw [borshDe_byt _ borsh_de_table_ok.1 hsh] at h
-  exact deShape_inv (bytShape_ok borsh_de_table_ok.1 hsh) input c rest h
+  rw [borshDe_byt _ borsh_shape_ok hsh] at h
+  exact deShape_inv (bytShape_ok borsh_shape_ok hsh) input c rest h
 
 /-- No single allocation request of the reader exceeds `4096 + 2 × (bytes supplied)`: a length
 prefix alone cannot make it reserve gigabytes. -/
 theorem borsh_alloc_bound (input : List UInt8) :
     (de input).maxRequest ≤ 4096 + 2 * input.length :=
-  borshDe_bound (limit := 4096) (fun _ => true) (by decide) .byt input
+  borshDe_bound (limit := 4096) (fun _ => true)
+    (all_shape_of_all_ok (by decide : borshDeRows.all (borshDeRowOk 4096) = true)) .byt input
 
 /-- Same bound for the `HipStr` reader. -/
 theorem borsh_str_alloc_bound (valid : List UInt8 → Bool) (input : List UInt8) :
     (deStr valid input).maxRequest ≤ 4096 + 2 * input.length :=
-  borshDe_bound (limit := 4096) valid (by decide) .str input
+  borshDe_bound (limit := 4096) valid
+    (all_shape_of_all_ok (by decide : borshDeRows.all (borshDeRowOk 4096) = true)) .str input
 
 /-! ## serde visitors -/
 
@@ -362,7 +393,13 @@ example : (de [0, 0, 0, 0, 7]).result = .ok ([], [7]) := by decide
 example : (deStr ascii [2, 0, 0, 0, 0x61, 0xff]).result = .error .invalidData := by decide
 example : (deStr ascii [2, 0, 0, 0, 0x61, 0x62]).result = .ok ([0x61, 0x62], []) := by decide
 -- the table predicates are falsifiable: the pre-fix reader shape and an unvalidated visit_bytes
-example : borshDeRowOk capLimit ⟨.byt, .reader 4 true .exact true .setLen, "x"⟩ = false := by decide
+example : borshDeRowOk capLimit ⟨.byt, .reader 4 true .exact true .setLen, [], true, "x"⟩ = false := by decide
+-- a raw `read` in an otherwise well-shaped reader, and a raw `write`, are rejected
+example : borshDeRowOk capLimit
+    ⟨.byt, .reader 4 true (.minLen 4096) true .fromVec, [.delegate "u32::deserialize_reader", .read], false, "x"⟩
+    = false := by decide
+example : borshSerRowOk ⟨.byt, .sliceU8, [.write], false, "x"⟩ = false := by decide
+example : deRowOk visitors deRows ⟨.byt, .owned, .visitor .bytes .bytOwned, true, "x"⟩ = false := by decide
 example : (deShape (.reader 4 true .exact true .setLen) [0xff, 0xff, 0xff, 0xff, 1, 2, 3]).maxRequest
     = 4294967295 := by decide
 example : visitorOk capLimit
